@@ -20,7 +20,8 @@ Newton, CG and PGS: checks/c10.py).
   island_decomposition        for block-separable (M, J, s) the minimisers are exactly the tuples of block
                               minimisers; `block_cost_separates` shows that block-diagonal M, J give such a cost;
                               `unconstrained_block_minimiser`: a block without constraint rows is minimised by a₀
-  primalSearch_checked / primal_monotone_partial / warmstart_picks_cheaper   (see Lemmas/PrimalSearch.lean)
+  primalSearch_checked / primalEval_is_cost_difference / primalSearch_checked_decreases_cost /
+  primal_monotone_partial / warmstart_picks_cheaper   (models: Model/SolverCert.lean, lemmas: Lemmas/PrimalSearch.lean)
 -/
 namespace MjProof.C10
 open Matrix MjProof.SolverCert
@@ -112,6 +113,87 @@ example : ∃ (M : Matrix (Fin 2) (Fin 2) ℝ) (s : (Fin 1 → ℝ) → ℝ) (f 
   simp only [neg_neg, dotProduct, Finset.univ_unique, Fin.default_eq_zero, Finset.sum_singleton, Pi.sub_apply]
   nlinarith [sq_nonneg (x 0 - z 0)]
 
+/-! ### the hypothesis on `s` holds for every problem made of scalar rows (C11/C12 model) -/
+
+open MjProof.Constraint in
+/-- the three scalar row laws of `mj_constraintUpdate_impl` -/
+inductive RowKind | equality | friction | inequality
+  deriving DecidableEq
+
+open MjProof.Constraint in
+/-- a scalar constraint row: its law and the parameters `D`, `R`, `frictionloss` -/
+structure SRow where
+  kind : RowKind
+  D : ℝ
+  R : ℝ
+  floss : ℝ
+
+open MjProof.Constraint in
+/-- cost of the row at the residual `x`, as the model of `mj_constraintUpdate_impl` computes it -/
+noncomputable def SRow.cost (r : SRow) (x : ℝ) : ℝ :=
+  match r.kind with
+  | .equality => (eqRow r.D x).cost
+  | .friction => (fricRow r.D r.R r.floss x).cost
+  | .inequality => (nonnegRow r.D x).cost
+
+open MjProof.Constraint in
+/-- force of the row at the residual `x` (same model) -/
+noncomputable def SRow.force (r : SRow) (x : ℝ) : ℝ :=
+  match r.kind with
+  | .equality => (eqRow r.D x).force
+  | .friction => (fricRow r.D r.R r.floss x).force
+  | .inequality => (nonnegRow r.D x).force
+
+/-- what `mj_makeImpedance` guarantees: `D ≥ 0`, and for friction-loss rows `D·R = 1`, `frictionloss ≥ 0` -/
+def SRow.Valid (r : SRow) : Prop := 0 ≤ r.D ∧ (r.kind = .friction → r.D * r.R = 1 ∧ 0 ≤ r.floss)
+
+open MjProof.Constraint in
+theorem srow_supporting_line (r : SRow) (h : r.Valid) (x z : ℝ) :
+    r.cost z + (-(r.force z)) * (x - z) ≤ r.cost x := by
+  obtain ⟨hD, hf⟩ := h
+  unfold SRow.cost SRow.force
+  cases hk : r.kind with
+  | equality =>
+    simp only [eqRow_cost, eqRow_force]
+    nlinarith [mul_nonneg hD (sq_nonneg (x - z))]
+  | friction =>
+    obtain ⟨hDR, hfl⟩ := hf hk
+    have hb : 0 ≤ r.R * r.floss := mul_nonneg (R_pos_of hD hDR).le hfl
+    simp only [fricRow_cost_eq hDR, fricRow_force_eq hDR, neg_neg]
+    have := huber1_lower (r.R * r.floss) x z hb
+    nlinarith [mul_le_mul_of_nonneg_left this hD]
+  | inequality =>
+    simp only [nonnegRow_cost_eq, nonnegRow_force_eq, neg_neg]
+    have := q1_lower x z
+    nlinarith [mul_le_mul_of_nonneg_left this hD]
+
+/-- constraint cost and force law of a problem whose rows are all scalar -/
+noncomputable def sOf (rows : Fin m → SRow) (v : Fin m → ℝ) : ℝ := ∑ i, (rows i).cost (v i)
+noncomputable def fOf (rows : Fin m → SRow) (v : Fin m → ℝ) : Fin m → ℝ := fun i => (rows i).force (v i)
+
+/-- **The convexity hypothesis of the certificate theorems is a theorem for scalar rows**: for every problem made of
+    equality, friction-loss, limit, frictionless and pyramidal-contact rows with the parameters `mj_makeImpedance`
+    produces, the modelled constraint cost and force law satisfy the supporting-hyperplane inequality. -/
+theorem gradIneq_scalar_rows (rows : Fin m → SRow) (h : ∀ i, (rows i).Valid) : GradIneq (sOf rows) (fOf rows) := by
+  intro x z
+  unfold sOf fOf
+  have : ∑ i, ((rows i).cost (z i) + (-((rows i).force (z i))) * (x i - z i)) ≤ ∑ i, (rows i).cost (x i) :=
+    Finset.sum_le_sum (fun i _ => srow_supporting_line (rows i) (h i) (x i) (z i))
+  rw [Finset.sum_add_distrib] at this
+  simpa [dotProduct] using this
+
+/-- the certificate for scalar-row problems, with no hypothesis left on the constraint cost: for `M ≻ 0`
+    (semidefinite suffices) and any witness `M w = g` -/
+theorem suboptimality_certificate_scalar_rows (M : Matrix (Fin n) (Fin n) ℝ) (J : Matrix (Fin m) (Fin n) ℝ)
+    (a0 : Fin n → ℝ) (aref : Fin m → ℝ) (rows : Fin m → SRow) (hrows : ∀ i, (rows i).Valid)
+    (hM : SymPSD M) (a w : Fin n → ℝ) (hw : M *ᵥ w = grad M J a0 aref (fOf rows) a) (x : Fin n → ℝ) :
+    cost M J a0 aref (sOf rows) a - cost M J a0 aref (sOf rows) x ≤
+      1 / 2 * (grad M J a0 aref (fOf rows) a ⬝ᵥ w) :=
+  subopt_witness M J a0 aref (sOf rows) (fOf rows) hM (gradIneq_scalar_rows rows hrows) a w hw x
+
+example : (⟨.friction, 4, 1 / 4, 1 / 2⟩ : SRow).Valid := by
+  refine ⟨by norm_num, fun _ => ⟨by norm_num, by norm_num⟩⟩
+
 /-! ### islands -/
 
 /-- **Island decomposition.**  If the cost is a sum of block costs over independent blocks of variables
@@ -173,6 +255,39 @@ theorem primalSearch_checked (e : Ev ℝ) (gtol : ℝ) (lsIter : ℕ) (snormSmal
     r.alpha = 0 ∨ (r.checked = true ∧ e.cost r.alpha < 0 ∧ r.improvement = -(e.cost r.alpha)) ∨
       (r.checked = false ∧ r.improvement = -(e.cost r.alpha)) :=
   search_exit_cases e gtol lsIter snormSmall
+
+open MjProof.PrimalSearch in
+/-- **`PrimalEval` evaluates the documented cost.**  For scalar rows (equality, friction loss, limits,
+    frictionless and pyramidal contacts) the modelled `PrimalPrepare` + `PrimalEval` return at every `alpha` exactly
+    the change of the documented cost along the search line: the Gauss part `alpha·g1 + alpha²·g2` plus, row by row,
+    the change of the row cost of `mj_constraintUpdate_impl` (C11/C12 model) between the residuals `Jaref` and
+    `Jaref + alpha·Jv`.  (Elliptic cone blocks are not covered: oracle only.) -/
+theorem primalEval_is_cost_difference (ne nf : ℕ) (g1 g2 : ℝ) (rows : List (LRow ℝ)) (alpha : ℝ) :
+    (evalRows ne nf g1 g2 rows alpha).1 = alpha * g1 + alpha * alpha * g2 +
+      ((rows.zipIdx 0).map (fun p =>
+        rowCost ne nf p.2 p.1 (p.1.jaref + alpha * p.1.jv) - rowCost ne nf p.2 p.1 p.1.jaref)).sum :=
+  evalRows_cost_eq ne nf g1 g2 rows alpha
+
+open MjProof.PrimalSearch in
+/-- Consequently a cost-checked exit of the line search on scalar rows returns a step that strictly decreases the
+    documented cost along the line. -/
+theorem primalSearch_checked_decreases_cost (ne nf : ℕ) (g1 g2 : ℝ) (rows : List (LRow ℝ)) (gtol : ℝ) (lsIter : ℕ) :
+    let r := search (evOf ne nf g1 g2 rows) gtol lsIter false
+    r.alpha ≠ 0 → r.checked = true →
+      r.alpha * g1 + r.alpha * r.alpha * g2 +
+        ((rows.zipIdx 0).map (fun p =>
+          rowCost ne nf p.2 p.1 (p.1.jaref + r.alpha * p.1.jv) - rowCost ne nf p.2 p.1 p.1.jaref)).sum < 0 := by
+  intro r hne hchk
+  have h := search_exit_cases (evOf ne nf g1 g2 rows) gtol lsIter false
+  rcases h with h | h | h
+  · exact absurd h hne
+  · have hc := h.2.1
+    simp only [evOf] at hc
+    rw [← evalRows_cost_eq]
+    exact hc
+  · have : r.checked = false := h.1
+    rw [hchk] at this
+    exact absurd this (by simp)
 
 open MjProof.PrimalSearch in
 /-- **Partial.**  The modelled main loop of `mj_solPrimal` (`alpha == 0 → stop, else move`) with an exact line
